@@ -390,7 +390,10 @@ def glue_builtins() -> None:
             # refers to the wrapped awaitable and the default value,
             # in that order, but doesn't expose either
             referents = gc.get_referents(aw)
-            return referents[0] if referents else None
+            # (returned as a one-element sequence so that an awaitable
+            # which also happens to be a sequence isn't taken for a
+            # series of stack items)
+            return (referents[0],) if referents else None
 
 
 def format_funcname(func: object) -> str:
